@@ -279,6 +279,7 @@ func (c *c11) newRec(in c11op, isCall bool, prom, path int) *c11rec {
 	if isCall {
 		r.uid = atomic.AddUint64(&c.uid, 1)
 	}
+	r.tCall = c.cc.log.tick() // stamped before the record is published and before the call is issued
 	c.mu.Lock()
 	c.recs = append(c.recs, r)
 	c.mu.Unlock()
@@ -551,7 +552,6 @@ func (c *c11) seqCall(prom, path, client int, recv bool) bool {
 	want := c.expect(c.st, prom, path)
 	r := c.newRec(c11op{}, true, prom, path)
 	r.client = client
-	r.tCall = cc.log.tick()
 	run := func() {
 		if cl != nil {
 			c.ccall(r, cl, recv)
@@ -782,7 +782,6 @@ func (c *c11) epilogue(rng *common.RNG) bool {
 	cc := c.cc
 	rec := func(in c11op) *c11rec {
 		r := c.newRec(in, false, 0, 0)
-		r.tCall = cc.log.tick()
 		return r
 	}
 	if !c.openAllPCs() {
@@ -845,7 +844,6 @@ func (c *c11) epilogue(rng *common.RNG) bool {
 		want := c.expect(c.st, cl.prom, cl.path)
 		r := c.newRec(c11op{K: "ccall", J: ci}, true, cl.prom, cl.path)
 		r.client = ci
-		r.tCall = cc.log.tick()
 		op := cc.goOp("post-resolution call through pipelined client", func() { c.ccall(r, cl, false) })
 		if !cc.join(op) {
 			return false
@@ -890,7 +888,6 @@ func (c *c11) epilogue(rng *common.RNG) bool {
 		want := c.expect(c.st, cl.prom, cl.path)
 		r := c.newRec(c11op{K: "ccall", J: ci}, true, cl.prom, cl.path)
 		r.client = ci
-		r.tCall = cc.log.tick()
 		op := cc.goOp("call through owned client after ReleaseClients", func() { c.ccall(r, cl, true) })
 		if !cc.join(op) {
 			return false
@@ -1052,7 +1049,6 @@ func (c *c11) worker(w int) {
 		switch o.K {
 		case "pcall":
 			r := c.newRec(o, true, o.P, o.Path)
-			r.tCall = cc.log.tick()
 			if o.Async {
 				a := &asyncOp{name: "async pipelined call", done: make(chan struct{})}
 				c.mu.Lock()
@@ -1077,7 +1073,6 @@ func (c *c11) worker(w int) {
 			}
 			cl := mine[o.J]
 			r := c.newRec(o, true, cl.prom, cl.path)
-			r.tCall = cc.log.tick()
 			if o.Async {
 				a := &asyncOp{name: "async call through pipelined client", done: make(chan struct{})}
 				c.mu.Lock()
@@ -1091,13 +1086,11 @@ func (c *c11) worker(w int) {
 			c.startWaiter(o.P)
 		case "resolve":
 			r := c.newRec(o, false, 0, 0)
-			r.tCall = cc.log.tick()
 			p := c.resolveRoot(o.Reject)
 			c.finish(r)
 			cc.panicViolation("Fulfill/Reject", p)
 		case "join":
 			r := c.newRec(o, false, 0, 0)
-			r.tCall = cc.log.tick()
 			p := c.doJoin(o.P, o.J)
 			c.finish(r)
 			cc.panicViolation("Join", p)
